@@ -275,7 +275,9 @@ def extract():
         "Literal::String(s) | Literal::RawString(s)": ("{ let s = if ctx.dialect.string_literal_backslash_escape() { s.replace('\\\\', \"\\\\\\\\\") } else { s }; "
                                                        "let s = s.replace('\\'', \"''\"); sql_ast::Expr::Value(Value::SingleQuotedString(s).into()) }"),
         "Literal::Boolean(b)": "sql_ast::Expr::Value(Value::Boolean(b).into())",
-        "Literal::Float(f)": 'sql_ast::Expr::Value(Value::Number(format!("{f:?}"), false).into())',
+        # since fix 1ae3488: a non-finite float is a compile error (Model/FloatFmt.v emit_float_rust = None)
+        "Literal::Float(f)": ('{ if !f.is_finite() { return Err(Error::new_simple( "float literal is out of range: its value is not a finite 64-bit float", )); } '
+                              'sql_ast::Expr::Value(Value::Number(format!("{f:?}"), false).into()) }'),
         "Literal::Integer(i)": 'sql_ast::Expr::Value(Value::Number(format!("{i}"), false).into())',
         "Literal::Date(value)": "translate_datetime_literal(sql_ast::DataType::Date, value, ctx)",
     }
